@@ -22,12 +22,15 @@ var ErrCrashed = errors.New("simdisk: process crashed (fail-stop)")
 // of process death. Completed writes survive whether or not they were synced
 // (process-death model).
 type Disk struct {
-	mu      sync.Mutex
-	stores  map[string]*diskStore
-	ops     int // mutating calls performed so far (successful or the crashing one)
-	crashAt int // 0 = not armed; else absolute op number that fails
-	torn    int // for the crashing Write: keep torn/256 of the bytes
-	crashed bool
+	pauseAt      int
+	pauseReached chan struct{}
+	pauseGo      chan struct{}
+	mu           sync.Mutex
+	stores       map[string]*diskStore
+	ops          int // mutating calls performed so far (successful or the crashing one)
+	crashAt      int // 0 = not armed; else absolute op number that fails
+	torn         int // for the crashing Write: keep torn/256 of the bytes
+	crashed      bool
 	// CrashInfo describes the op the crash landed on.
 	CrashInfo string
 	// OpLog records the last mutating calls (for traces).
@@ -143,11 +146,43 @@ func (d *Disk) TotalBytes() int {
 	return n
 }
 
+// ArmPause makes the goroutine that issues the n-th mutating call from now
+// (n>=1) stop right before that call takes effect. reached is closed when it
+// has stopped; resume lets it continue (and disarms an unreached pause). The
+// caller schedules other activity of the system in between: the paused
+// goroutine holds no lock of the disk.
+func (d *Disk) ArmPause(n int) (reached <-chan struct{}, resume func()) {
+	d.mu.Lock()
+	defer d.mu.Unlock()
+	r, g := make(chan struct{}), make(chan struct{})
+	d.pauseAt, d.pauseReached, d.pauseGo = d.ops+n, r, g
+	var once sync.Once
+	return r, func() {
+		once.Do(func() {
+			d.mu.Lock()
+			d.pauseAt = 0
+			d.mu.Unlock()
+			close(g)
+		})
+	}
+}
+
 // mutate numbers a mutating call; returns (allowed bytes for a torn write, error).
 // caller holds d.mu.
 func (d *Disk) mutate(s *diskStore, op string, fd storage.FileDesc, nbytes int) (int, error) {
 	if d.crashed {
 		return 0, ErrCrashed
+	}
+	if d.pauseAt != 0 && d.ops+1 >= d.pauseAt {
+		d.pauseAt = 0
+		r, g := d.pauseReached, d.pauseGo
+		d.mu.Unlock()
+		close(r)
+		<-g
+		d.mu.Lock()
+		if d.crashed {
+			return 0, ErrCrashed
+		}
 	}
 	d.ops++
 	key := fmt.Sprintf("%s/%s/%s", shortPath(s.path), op, ftName(fd.Type))
